@@ -109,7 +109,7 @@ func ruleInitBeforePublish(c *Ctx, rule string) {
 				w.eachInstr(fn, func(in2 ssa.Instruction) {
 					switch y := in2.(type) {
 					case *ssa.Store:
-						if fa, ok := y.Addr.(*ssa.FieldAddr); ok && fieldOf(fa) == timer && (w.sameKey(w.resolveLoad(fa.X), obj) || w.sameKey(fa.X, obj)) {
+						if fa, ok := y.Addr.(*ssa.FieldAddr); ok && fieldOf(fa) == timer && !isNilConst(y.Val) && (w.sameKey(w.resolveLoad(fa.X), obj) || w.sameKey(fa.X, obj)) {
 							initInstrs = append(initInstrs, in2)
 						}
 					case *ssa.Call:
